@@ -21,8 +21,8 @@ TIMEOUTS = ((25, 75), (10, 30), (25, 200), (30, 40))
 _templates = {}
 
 
-def template(cost, tmo, slow=(), mesh=()):
-    key = (cost, tmo, tuple(slow), tuple(mesh))
+def template(cost, tmo, slow=(), mesh=(), nomc=()):
+    key = (cost, tmo, tuple(slow), tuple(mesh), tuple(nomc))
     t = _templates.get(key)
     if t is None:
         specs = []
@@ -32,6 +32,8 @@ def template(cost, tmo, slow=(), mesh=()):
                 sp["cost"] = 300 * US + a  # `slow`: MCUs with 300 us per SPI transaction
             if a in mesh:
                 sp.update(cls=H.RF24MeshNoMaster, node_id=100 + (a & 63))  # a connected mesh node (its write() takes another path)
+            if a in nomc:
+                sp.update(attrs={"allow_multicast": False}, rebegin=True)  # multicasting off (address re-assigned afterwards, as documented)
             specs.append(sp)
         t = N.Net(specs, cost_class=cost, horizon=6000 * MS)
         for a in mesh:
@@ -70,7 +72,11 @@ def run_case(case, chooser=None):
 
     delay = case.get("first_hop_delay_ms", 0) * MS  # the first hop is deaf for so long after the call starts
 
+    phase = {"explore": True}
+
     def fault(pkt):
+        if not phase["explore"]:
+            return False
         if pkt.is_ack:
             # fault kind 2 (case["ack_faults"]): every hardware ACK of that frame hop is lost - the frame is
             # delivered, its sender sees a failed transmission
@@ -104,6 +110,17 @@ def run_case(case, chooser=None):
                 del w.airlog[net.air0:]
                 obs["t0"] = w.now
             obs["ret"] = n.write(dst, case["mtype"], msg)
+        elif case.get("same_header"):
+            # history: the application keeps ONE header object; its first transmission went through loss-free (and was
+            # acknowledged where the type asks for it), now the same header - same frame id - carries the next message
+            hdr = H.RF24NetworkHeader(dst, case["mtype"])
+            phase["explore"] = False
+            obs["ret_first"] = n.send(hdr, b"first use of the header")
+            net.serve(ctx, src, 150 * MS)
+            phase["explore"] = True
+            del w.airlog[net.air0:]
+            obs["t0"] = w.now
+            obs["ret"] = n.send(hdr, msg)
         else:
             obs["ret"] = n.send(H.RF24NetworkHeader(dst, case["mtype"]), msg)
         obs["t1"] = w.now
@@ -126,6 +143,9 @@ def run_case(case, chooser=None):
     nack_heard = []
     originators = []
     heard_nack = set()  # radios that have received a NETWORK_ACK of this message so far
+    deliveries = {}  # radio -> how many times the destination's radio took the message from it as a NEW packet
+    nack_loads = {}  # (radio, payload) -> [number of payload loads, PID of the last transmission]: a hardware
+    #                  retransmission and REUSE_TX_PL keep the PID, a new W_TX_PAYLOAD advances it
     seen_tx = set()
     delivered_to_dst = False
     delivered_known = False
@@ -140,10 +160,15 @@ def run_case(case, chooser=None):
         is_msg = f["to"] == dst and f["from"] == src and f["type"] == (case["mtype"] & 0xFF) and f["msg"] == msg
         if is_msg and dname in p.heard_by:
             delivered_to_dst = True
+            deliveries[p.src.name] = deliveries.get(p.src.name, 0) + 1  # (a repetition the radio discards is heard as "<name>:dup")
         if is_msg and p.acked and (dname in p.heard_by or dname + ":dup" in p.heard_by):
             delivered_known = True  # ... and the delivering node's radio saw an acknowledgement (possibly of a retransmission)
         if f["type"] == 193 and not is_msg:
             key = (p.src.name, p.payload)
+            ld = nack_loads.setdefault(key, [0, None])
+            if ld[1] != p.pid:
+                ld[0] += 1
+                ld[1] = p.pid
             if key not in seen_tx:
                 seen_tx.add(key)
                 if p.src.name not in heard_nack:
@@ -156,6 +181,10 @@ def run_case(case, chooser=None):
     obs["t_accept"] = t_accept
     obs["nack_heard"] = nack_heard
     obs["originators"] = originators
+    # (a frame that reaches the destination twice - its origin kept repeating it while every hardware ACK was lost, and the
+    # relay's radio had received something else in between - is acknowledged once per delivery)
+    obs["nack_reloaded"] = sorted((k[0], v[0]) for k, v in nack_loads.items()
+                                  if v[0] > max(1, deliveries.get(k[0], 0)) and k[0] in {o[0] for o in originators})
     obs["delivered"] = delivered_to_dst
     obs["delivered_known"] = delivered_known and delivered_to_dst
     obs["faults"] = [k[0] + (":ack" if v == 2 else "") for k, v in decided.items() if v]
@@ -187,11 +216,16 @@ def judge(case, obs, pid=PID):
                   "%d NETWORK_ACK frame(s) originated (by %s) for a type-%d message over %d hop(s), delivered=%s" % (
                       len(orig), [o[0] for o in orig], t, hops, obs["delivered"])))
     elif expect_nack:
+        if obs["nack_reloaded"]:
+            v.append(("%s/nack-sent-again:%s" % (pid, shape), "the NETWORK_ACK was handed to the radio %d times by %s (as a new payload each time: the receiver cannot tell it from a second acknowledgement)" % (
+                obs["nack_reloaded"][0][1], obs["nack_reloaded"][0][0])))
         last_hop = "n%o" % path[-2]
         if orig[0][0] != last_hop:
             v.append(("%s/nack-wrong-originator:%s" % (pid, shape), "NETWORK_ACK originated by %s, the node delivering to the destination is %s" % (orig[0][0], last_hop)))
         if orig[0][1] != src:
             v.append(("%s/nack-wrong-addressee:%s" % (pid, shape), "NETWORK_ACK addressed to %o, origin is %o" % (orig[0][1], src)))
+    if case.get("same_header") and obs.get("ret_first") is not True:
+        v.append(("%s/first-use-failed:%s" % (pid, shape), "the loss-free first transmission with the header returned %r" % (obs.get("ret_first"),)))
     # (2) return value vs ground truth
     ret = obs["ret"]
     if not obs["aborted"] and src not in obs["exc"]:
@@ -225,7 +259,7 @@ def judge(case, obs, pid=PID):
 def run_cross(case, chooser=None):
     """two origins at once: the NETWORK_ACK of the second message is routed THROUGH the first
     origin while that one waits for its own (safety clause only: True => own ACK arrived)"""
-    net = copy.deepcopy(template(case["cost"], tuple(case["tmo"]), tuple(case.get("slow", ()))))
+    net = copy.deepcopy(template(case["cost"], tuple(case["tmo"]), tuple(case.get("slow", ())), (), tuple(case.get("nomc", ()))))
     net.w.activate()
     H.reset_frame_ids()
     H.set_frame_id(case.get("id0", 0))
@@ -366,6 +400,12 @@ def build_items(tier, seed):
                 k += 1
                 items.append(([dict(src=s, dst=d, mtype=t, mlen=(k * 5) % 25, tmo=list(TIMEOUTS[k % 2]), cost=0, lat=0, seed=seed, id0=(k * 977) & 0xFFFF,
                                     max_execs=20000, mesh=[s], pre_type=pre)], 1 if tier == "quick" else 2))
+    # one header object used twice (same frame id): the second message's fate is explored after an acknowledged first one
+    for (s, d) in ((O("1"), O("2")), (O("11"), O("2")), (O("0"), O("11"))):
+        for t in (65, 127, 1):
+            k += 1
+            items.append(([dict(src=s, dst=d, mtype=t, mlen=(k * 5) % 25, tmo=list(TIMEOUTS[0]), cost=0, lat=0, seed=seed, id0=(k * 977) & 0xFFFF,
+                                max_execs=20000, same_header=True)], 1 if tier == "quick" else 2))
     # third fault kind: every hardware ACK of a frame hop lost (frame delivered, its sender sees a failure)
     for (s, d) in ROUTES:
         hops = len(N.tree_path(s, d)) - 1
@@ -392,6 +432,11 @@ def build_items(tier, seed):
         for first, second in ((O("1"), O("11")), (O("11"), O("1"))):
             items.append(([dict(senders=[[first, O("2"), 66, 0], [second, O("2"), 67, start]], tmo=[25, 75], cost=0, lat=0, seed=seed, id0=start)],
                           1 if tier == "quick" else 2))
+    # (the same with multicasting switched off on the node the foreign NETWORK_ACK is routed through)
+    for start in (0, 2, 5, 10, 20, 40):
+        for first, second in ((O("1"), O("11")), (O("11"), O("1"))):
+            items.append(([dict(senders=[[first, O("2"), 66, 0], [second, O("2"), 67, start]], tmo=[25, 75], cost=0, lat=0, seed=seed, id0=start,
+                                nomc=[O("1")] if start % 4 else [O("1"), O("11"), O("0")])], 1 if tier == "quick" else 2))
     # ... and a message FOR the waiting origin arrives right behind its NETWORK_ACK (both forwarded by the common relay 0o1)
     for start in ([0, 1, 2, 3, 4, 5, 6, 8, 10] if tier == "quick" else list(range(0, 16))):
         for lat in (0, 1, 2):
